@@ -318,7 +318,7 @@ Proof.
     destruct (skipn_cons_idx _ _ _ _ Es) as [Hi Hlt].
     rewrite decode_parts_cons in H.
     destruct (decode_step_clean (c :: cr)) as [p' rest'| |] eqn:ED; try discriminate.
-    apply dcons_ok_inv in H as (l' & Hl' & El). injection El as -> ->.
+    apply dcons_ok_inv in H as (l' & Hl' & El). injection El as E1 E2. subst p' l'.
     cbn [walk_parts]. rewrite Hi. cbn [chk]. cbv zeta.
     pose proof (b2n_lt c) as Hc.
     assert (exists step, (if (1 <=? b2n c) && (b2n c <=? 75) then 1 + lenN part
